@@ -6,13 +6,14 @@
 package c19
 
 import (
-	"os"
-	"regexp"
 	"bytes"
 	"context"
 	"errors"
 	"fmt"
 	"net"
+	"os"
+	"regexp"
+	"strings"
 	"testing"
 	"time"
 
@@ -179,7 +180,7 @@ func run(s *kernel.Sim, c *scen.Case) {
 	}
 
 	switch {
-	case p.Shape == "plain" || p.Shape == "plain-timeout":
+	case strings.HasPrefix(p.Shape, "plain"):
 		pr := startPair(1, p.Role == "sender")
 		stU, stP := pr.CS, pr.SS
 		if p.Role != "sender" {
@@ -187,6 +188,17 @@ func run(s *kernel.Sim, c *scen.Case) {
 		}
 		if p.Shape == "plain-timeout" {
 			_ = stU.SetTimeout(10 * time.Minute)
+		}
+		if p.Shape == "plain-setconn" {
+			// the stream started life on another connection and was moved onto this one (SetConnection,
+			// as after a TLS upgrade): cancellation has to act on the connection in use
+			pr0 := hs.NewPair(net0, 2)
+			epU := pr.CE
+			if p.Role != "sender" {
+				epU = pr.SE
+			}
+			stU = stream.NewStream(pr0.CE)
+			stU.SetConnection(epU)
 		}
 		if p.Role == "sender" {
 			s.Go("under-test", func() {
@@ -421,7 +433,7 @@ func run(s *kernel.Sim, c *scen.Case) {
 			s.Violate("slow-return-after-cancellation", sig, fmt.Sprintf("%s: returned %v after the context was done", where, lag))
 			return
 		}
-		if (p.Shape == "plain" || p.Shape == "plain-timeout") && !errors.Is(out.err, ctx.Err()) {
+		if strings.HasPrefix(p.Shape, "plain") && !errors.Is(out.err, ctx.Err()) {
 			s.Violate("wrong-error-after-cancellation", sig, fmt.Sprintf("%s: error %q is not the context's error %q", where, out.err, ctx.Err()))
 			return
 		}
@@ -447,6 +459,7 @@ var combos = []struct{ shape, role string }{
 	// the same with a socket timeout configured on the stream beforehand (SetTimeout arms real
 	// deadlines on TCP sockets only; the context must stay in charge on every other connection)
 	{"plain-timeout", "sender"}, {"plain-timeout", "receiver"},
+	{"plain-setconn", "sender"}, {"plain-setconn", "receiver"},
 	{"noauth", "client"}, {"noauth", "server"},
 	{"claimtobe", "client"}, {"claimtobe", "server"},
 	{"token", "client"}, {"token", "server"},
